@@ -1,18 +1,16 @@
-# Per-property configuration of bin/check: which correspondence streams serve the property and how many cases.
-GLUE = 'OCaml driver glue (ocaml/*.ml: s-expression I/O, int/string <-> Z/list Z conversion) and extraction with ExtrOcamlBasic only'
-HARNESS = 'Go correspondence harness /verif/harness (built -tags verif against /repo working tree) reports what the implementation did'
-
-PROPS = {
-    'C14': dict(
-        streams=[('types', {'quick': 400, 'thorough': 20000})],
-        rule='exhaustive strings up to length 3 (quick) / 5 (thorough) over each type alphabet plus near-miss characters, boundary values, random longer strings; '
-             'non-trivial = non-empty input; distinct by input bytes',
-        trusted=[GLUE, HARNESS],
-        level_text='Coq theorems over the executable model of fix_int.go etc. (accept <=> grammar, totality, round-trips) for all byte strings; '
-                   'model tied to the code by differential runs on exhaustive short strings + random; partial for float/decimal values',
-        level_note='trusted: Coq kernel, extraction (ExtrOcamlBasic), OCaml glue, Go harness; Go library fragments (time.Parse, ParseFloat syntax) modelled not verified',
-        assumptions=['float values (ParseFloat rounding / FormatFloat shortest) and decimal-library arithmetic are validated by the correspondence only'],
-    ),
-}
-
+# Per-property configuration of bin/check, assembled from bin/props.d/<Cxx>.json (one file per property):
+#   streams: [[stream, {"quick": n, "thorough": n}], ...], rule, level_text, level_note, assumptions, trusted, technique, timeout
+import json, glob, os
+GLUE = 'OCaml driver glue (ocaml/*.ml: s-expression I/O, int/string <-> Z/list Z conversion) and extraction with ExtrOcamlBasic only (no Extract Constant of our own)'
+HARNESS = 'Go correspondence harness /verif/harness (built -tags verif against /repo working tree) reports what the implementation did; its generators bound what the tie can see'
+PROPS = {}
+for f in sorted(glob.glob('/verif/bin/props.d/C*.json')):
+    c = json.load(open(f))
+    c['streams'] = [(s, n) for s, n in c['streams']]
+    c['trusted'] = [GLUE, HARNESS] + c.get('trusted', [])
+    PROPS[os.path.basename(f)[:-5]] = c
 NOT_APPLICABLE = []
+_all = [json.loads(l)['id'] for l in open('/verif/properties.jsonl')]
+for pid in _all:
+    if pid not in PROPS:
+        NOT_APPLICABLE.append({'property_id': pid, 'reason': 'check not built yet (work in progress, see DESIGN.md section 5 for the planned theorem); not a claim that the technique cannot apply'})
